@@ -56,6 +56,9 @@ func singleDefs(p *packages.Package, body ast.Node) map[types.Object]ast.Expr {
 				}
 				if len(v.Lhs) == len(v.Rhs) && (v.Tok == token.DEFINE || v.Tok == token.ASSIGN) {
 					note(id, v.Rhs[i])
+				} else if len(v.Rhs) == 1 && v.Tok == token.DEFINE {
+					// x, y := f(): the i-th result of that call (rendered f()[i])
+					note(id, &ast.IndexExpr{X: v.Rhs[0], Index: &ast.BasicLit{Kind: token.INT, Value: fmt.Sprint(i)}})
 				} else {
 					note(id, nil)
 				}
